@@ -65,8 +65,9 @@ def run_replay(payload, fast_check=False, keep=None):
 class Query:
     """One solver obligation. expect 'unsat' (property / unwinding / obligation) or 'sat' (vacuity witness).
     ops: operation objects whose results are replayed natively when a model is found."""
-    def __init__(self, name, formula, expect='unsat', kind='property', ops=None, known=None, world=None, describe=None):
+    def __init__(self, name, formula, expect='unsat', kind='property', ops=None, known=None, world=None, describe=None, realizable=None):
         self.name, self.formula, self.expect, self.kind = name, formula, expect, kind
+        self.realizable = realizable   # extra constraints under which a model can be rebuilt as a native input
         self.ops, self.known, self.world, self.describe = ops or [], known or [], world, describe
 
 def solver_for(base, timeout_ms):
@@ -91,6 +92,7 @@ def normalize_real(op_json, real):
         out = {'graph': normalize_graph_dump(real['graph'])}
         out['then'] = [normalize_real(sub, r) for sub, r in zip(op_json.get('then', []), real.get('then', []))]
         return out
+    if op == 'analyze_pragma': return {'range': real.get('range')}
     if op in ('validate', 'valid'):
         if real.get('ok'): return {'ok': True}
         e = real['error']
@@ -151,6 +153,8 @@ def run_queries(base, queries, mir, timeout_ms, fast_check, prop, cube_name, kno
         f = q.formula
         if listed and q.expect == 'unsat':
             f = z3.And(q.formula, *[z3.Not(k[1]) for k in listed])
+        if q.expect == 'sat' and q.realizable is not None:
+            f = z3.And(q.formula, *q.realizable)      # witnesses are asked for inside the natively replayable subset
         r, model, dt = check_formula(base, f, timeout_ms)
         rec['solver_s'] += dt
         qr = {'name': q.name, 'kind': q.kind, 'expect': q.expect, 'verdict': r, 'solver_s': round(dt, 3)}
@@ -169,6 +173,11 @@ def run_queries(base, queries, mir, timeout_ms, fast_check, prop, cube_name, kno
         if r == 'sat':
             if q.kind != 'property':
                 rec['inconclusive'].append(f'{q.kind} obligation {q.name} is sat (bound too small or model limit reached)'); continue
+            if q.realizable is not None:
+                r3, m3, dt3 = check_formula(base, z3.And(f, *q.realizable), timeout_ms); rec['solver_s'] += dt3
+                if r3 != 'sat':
+                    rec['inconclusive'].append(f'{q.name}: the solver found a counterexample, but none inside the subset of inputs the native replay can rebuild ({r3}); model: ' + str(model)[:600]); continue
+                model = m3
             if q.world is None or not q.ops:
                 rec['inconclusive'].append(f'{q.name}: the solver found a counterexample but this obligation has no native replay; model: ' + str(model)[:800]); continue
             os.makedirs(replay_dir, exist_ok=True)
